@@ -6,19 +6,24 @@ From JV Require Import Bytes Msg SrvModel SrvLemmas SrvBasics SrvC07.
 Import ListNotations.
 
 (* 1. In every reachable state a reservation (id, k) belongs to the context-carrying call k with that id whose
-      reply has not been delivered; ids are reserved at most once; while the server runs (and has not crashed)
-      every such call is reserved under its own index; a stopped server reserves nothing. *)
-Theorem c07_inv_used : forall c s, reach c s ->
+      reply has not been delivered; ids are reserved at most once; a stopped server reserves nothing. *)
+Theorem c07_reserved_inflight : forall c s, reach c s ->
   (forall id k, In (id, k) (used s) ->
      exists t un, nth_error (tasks s) k = Some t /\ t_id t = id /\ id <> [] /\ t_hasctx t = true /\
                   nth_error (units s) (t_unit t) = Some un /\ u_st un <> UFinished) /\
   NoDup (map fst (used s)) /\
-  (running s = true -> crash s = None ->
-   forall k t un, nth_error (tasks s) k = Some t -> t_hasctx t = true -> t_id t <> [] ->
-     nth_error (units s) (t_unit t) = Some un -> u_st un <> UFinished -> assoc (t_id t) (used s) = Some k) /\
   (running s = false -> used s = []).
-Proof. exact SrvC07.c07_inv_used. Qed.
-Print Assumptions c07_inv_used.
+Proof. exact SrvC07.c07_reserved_inflight. Qed.
+Print Assumptions c07_reserved_inflight.
+
+(* Conversely, while the server runs every context-carrying call whose reply has not been delivered is reserved
+   under its own index.  PARTIAL: proved for states that have not crashed (hypothesis crash s = None); the full
+   statement drops that hypothesis (see srv/SrvC07.v for what is missing). *)
+Theorem c07_inflight_reserved_partial : forall c s, reach c s -> running s = true -> crash s = None ->
+  forall k t un, nth_error (tasks s) k = Some t -> t_hasctx t = true -> t_id t <> [] ->
+    nth_error (units s) (t_unit t) = Some un -> u_st un <> UFinished -> assoc (t_id t) (used s) = Some k.
+Proof. exact SrvC07.c07_inflight_reserved_partial. Qed.
+Print Assumptions c07_inflight_reserved_partial.
 
 (* 2. A context is cancelled only by CancelRequest of the id of that very in-flight call, by a stop
       (Stop, or the reader's receive error), or by the delivery of its own reply. *)
